@@ -103,6 +103,9 @@ fn main() {
                 }
             }
         }
+        Some("oracle-encode") => {
+            fv::props::c18::oracle_loop();
+        }
         Some("decode") => {
             // fv decode <hex> [flipbit]: show the independent and the crate's reading of a file
             let mut b = fv::util::unhex(&args[2]);
